@@ -20,7 +20,7 @@ use log::info;
 use walkdir::DirEntry;
 
 use crate::config::Config;
-use crate::errors::Result;
+use crate::errors::{Result, XcpError};
 
 /// Parse a git ignore file.
 pub fn parse_ignore(source: &Path, config: &Config) -> Result<Option<Gitignore>> {
@@ -28,6 +28,11 @@ pub fn parse_ignore(source: &Path, config: &Config) -> Result<Option<Gitignore>>
         let gifile = source.join(".gitignore");
         info!("Using .gitignore file {:?}", gifile);
         let mut builder = GitignoreBuilder::new(source);
+        // Patterns come from a regular file; reading a FIFO of that
+        // name would wait for a writer that may never come.
+        if gifile.metadata().is_ok_and(|m| !m.is_file()) {
+            return Err(XcpError::InvalidSource(".gitignore is not a regular file.").into());
+        }
         if let Some(err) = builder.add(&gifile) {
             // No .gitignore means nothing to ignore, but failing to
             // read an existing one must not silently disable the
